@@ -22,6 +22,10 @@ pub enum Variant {
     ShortHeaderMarker { dict: u32 },
     /// .lzma, size in header, source hands over one byte at a time
     KnownBytewise { dict: u32 },
+    /// .lzma with a real size in the header AND a marker, decoded with ReadHeaderButUseProvided(None)
+    HeaderIgnoredMarker { dict: u32 },
+    /// 5-byte header, UseProvided(Some(n)), no marker
+    ShortHeaderProvided { dict: u32 },
     /// raw decoder, size known
     RawKnown { dict: u32 },
     /// raw decoder, marker
@@ -35,7 +39,7 @@ pub struct Built {
 
 /// Build the lzma-rs call for (program, params, variant). Returns None if the program is not well-formed.
 pub fn build(lc: u32, lp: u32, pb: u32, prog: &[Sym], var: Variant, model_dict: u64) -> Option<(Built, enc::Encoded)> {
-    let marker = matches!(var, Variant::Marker { .. } | Variant::ShortHeaderMarker { .. } | Variant::RawMarker { .. });
+    let marker = matches!(var, Variant::Marker { .. } | Variant::ShortHeaderMarker { .. } | Variant::RawMarker { .. } | Variant::HeaderIgnoredMarker { .. });
     let mut p = prog.to_vec();
     if marker {
         p.push(Sym::E);
@@ -79,6 +83,19 @@ pub fn build(lc: u32, lp: u32, pb: u32, prog: &[Sym], var: Variant, model_dict: 
             f.truncate(5);
             f.extend_from_slice(&e.payload);
             Case::Dec { fmt: Fmt::Lzma, opts: Opts { size: SizeOpt::Provided(None), ..Opts::default() }, input: Hex(f), rd: Rd::default(), sk: Sk::default() }
+        }
+        Variant::HeaderIgnoredMarker { dict } => Case::Dec {
+            fmt: Fmt::Lzma,
+            opts: Opts { size: SizeOpt::HeaderProvided(None), ..Opts::default() },
+            input: Hex(enc::lzma_file(lc, lp, pb, dict, Some(n + 1), &e.payload)),
+            rd: Rd::default(),
+            sk: Sk::default(),
+        },
+        Variant::ShortHeaderProvided { dict } => {
+            let mut f = enc::lzma_header(lc, lp, pb, dict, None);
+            f.truncate(5);
+            f.extend_from_slice(&e.payload);
+            Case::Dec { fmt: Fmt::Lzma, opts: Opts { size: SizeOpt::Provided(Some(n)), ..Opts::default() }, input: Hex(f), rd: Rd { bufreader: 2, ..Rd::default() }, sk: Sk::default() }
         }
         Variant::RawKnown { dict } => Case::RawLzma { lc, lp, pb, dict, size: Some(n), memlimit: None, ops: vec![RawOp::Dec(Hex(e.payload.clone()))] },
         Variant::RawMarker { dict } => Case::RawLzma { lc, lp, pb, dict, size: None, memlimit: None, ops: vec![RawOp::Dec(Hex(e.payload.clone()))] },
@@ -220,6 +237,8 @@ pub fn run(tier: Tier) -> i32 {
                 Variant::RawKnown { dict: maxd },
                 Variant::RawMarker { dict: maxd + 1 },
                 Variant::KnownBytewise { dict: 4097 },
+                Variant::HeaderIgnoredMarker { dict: 5000 },
+                Variant::ShortHeaderProvided { dict: 0x1801 },
             ];
             let mut first = true;
             for var in variants {
@@ -241,7 +260,7 @@ pub fn run(tier: Tier) -> i32 {
                 }
             }
         });
-        ctx.scope_done(&name, total * nset, t0, &format!("{} programs x {} lc/lp/pb x 7 presentations", total, nset));
+        ctx.scope_done(&name, total * nset, t0, &format!("{} programs x {} lc/lp/pb x 9 presentations", total, nset));
     }
     }
 
